@@ -246,6 +246,10 @@ def c18 (op : String) (args : List Sexp) : Verdict :=
                   let nd := (trimZeros (digits9 f.nsec)).length
                   .ok s!"fmt/frac{nd}/{zoneClass (zoneOfOffset off)}{if unix < 0 then "/pre1970" else ""}"
     | _, _, _, _, _, _ => .bad "args"
+  | "fmt", [_, _, _, .list [.atom "f", _, r1, r2]] =>
+    -- a route that is not of the form (w bytes result): writing itself failed
+    let bad := [r1, r2].filter fun r => match r with | .list (.atom "w" :: _) => false | _ => true
+    .oracle s!"writing a time value (Format at nanosecond precision) fails: {bad}"
   | _, _ => .bad s!"unknown op {op}"
 
 /-! ## C19 -/
